@@ -15,6 +15,14 @@
 // delivered only if the peer was neither removed nor re-added in between (otherwise
 // it is dropped); Stop() keeps handlers in the map, so holding across Stop is exact.
 //
+// Late return of Connect. A libp2p host's Connect returns only after the identify
+// exchange on the new connection, i.e. some time after the Connected notification; the
+// connection may be gone again by then. Outcome.PostMs models that wait: with
+// PostMs > 0 the service has handled every delivered notification of the dial (and
+// whatever the script did meanwhile, e.g. an external disconnect) before Connect
+// returns nil for a peer that is no longer connected. The "flap" sub-check enumerates
+// these schedules for one peer.
+//
 // Oracles (from the property statement):
 //   - safety: no host.Connect call for a peer starts after Stop() has returned, or
 //     after RemovePeer(p) has returned (until p is added again);
@@ -59,6 +67,12 @@ type Outcome struct {
 	HoldC   bool   `json:"hold_c"`   // hold the Connected notification
 	HoldD   bool   `json:"hold_d"`   // hold the Disconnected notification (okdrop)
 	DelayMs int64  `json:"delay_ms"` // virtual duration of the dial
+	// PostMs: ok/okdrop only. Virtual time that Connect keeps running after the connection
+	// events, before it returns nil. A libp2p host's Connect waits for the identify
+	// exchange after the connection (and its Connected notification) exists; the
+	// connection may drop meanwhile. With PostMs > 0 every delivered notification of
+	// this dial has been handled by the service before Connect returns.
+	PostMs int64 `json:"post_ms,omitempty"`
 }
 
 type PeerSpec struct {
@@ -403,8 +417,8 @@ func (h *fakeHost) Connect(ctx context.Context, pi peer.AddrInfo) error {
 
 	e.mu.Lock()
 	defer e.mu.Unlock()
-	e.inflight[p]--
 	kind := out.Kind
+	established, waited := false, false
 	switch {
 	case err != nil:
 		kind = "cancelled"
@@ -415,6 +429,7 @@ func (h *fakeHost) Connect(ctx context.Context, pi peer.AddrInfo) error {
 	case out.Kind == "ok":
 		e.conns[p]++
 		e.fire(false, p, out.HoldC)
+		established = true
 	case out.Kind == "okdrop":
 		e.conns[p]++
 		e.fire(false, p, out.HoldC)
@@ -422,6 +437,36 @@ func (h *fakeHost) Connect(ctx context.Context, pi peer.AddrInfo) error {
 		e.fire(true, p, out.HoldD)
 		e.unstuck[p] = false
 		e.classes["connect-then-drop"] = true
+		established = true
+	}
+	if established && out.PostMs > 0 {
+		// the connection exists (or existed); Connect returns only PostMs later. The dial
+		// stays "in flight" for the oracle; the service goroutines spawned by the
+		// notifications above run before virtual time moves on.
+		e.classes["connect-returns-late"] = true
+		waited = true
+		e.update(p)
+		e.mu.Unlock()
+		tm := time.NewTimer(time.Duration(out.PostMs) * time.Millisecond)
+		select {
+		case <-tm.C:
+		case <-ctx.Done():
+			tm.Stop()
+		}
+		e.mu.Lock()
+		if ctx.Err() != nil {
+			err = ctx.Err()
+			kind = "cancelled"
+		}
+	}
+	e.inflight[p]--
+	if err == nil && e.conns[p] == 0 {
+		// Connect reports success although the peer is not connected when it returns
+		e.classes["connect-nil-but-disconnected"] = true
+		if waited && e.pendingHeld(p) == 0 {
+			// ... and the service has already handled the Disconnected notification
+			e.classes["connect-nil-after-drop-was-handled"] = true
+		}
 	}
 	if err != nil {
 		e.consecFails[p]++
@@ -688,7 +733,7 @@ func run(c Case) kit.Result {
 		cls = append(cls, k)
 		switch k {
 		case "race:notification-held-across-stop", "race:notification-held-across-remove", "race:notification-delivered-after-stop",
-			"race:stop-during-dial", "race:remove-during-dial", "connect-then-drop", "backoff>=3-failures":
+			"race:stop-during-dial", "race:remove-during-dial", "connect-then-drop", "connect-nil-but-disconnected", "backoff>=3-failures":
 			nt = true
 		}
 	}
@@ -711,9 +756,11 @@ func run(c Case) kit.Result {
 // generators
 
 func genOutcome(t *rapid.T) Outcome {
-	o := Outcome{Kind: rapid.SampledFrom([]string{"fail", "fail", "fail", "fail", "ok", "ok", "ok", "okdrop"}).Draw(t, "kind")}
+	o := Outcome{Kind: rapid.SampledFrom([]string{"fail", "fail", "fail", "fail", "ok", "ok", "ok", "okdrop", "okdrop"}).Draw(t, "kind")}
 	if o.Kind != "fail" {
 		o.HoldC = rapid.IntRange(0, 3).Draw(t, "holdc") == 0
+		// how long Connect keeps running (identify wait) after the connection events
+		o.PostMs = rapid.SampledFrom([]int64{0, 0, 1, 1, 3000, 30000}).Draw(t, "post")
 	}
 	if o.Kind == "okdrop" {
 		o.HoldD = rapid.IntRange(0, 2).Draw(t, "holdd") == 0
@@ -798,7 +845,10 @@ func genBackoff(t *rapid.T) Case {
 			for j := 0; j < k; j++ {
 				ps.Dials = append(ps.Dials, Outcome{Kind: "fail"})
 			}
-			ps.Dials = append(ps.Dials, Outcome{Kind: "ok"})
+			ps.Dials = append(ps.Dials, Outcome{
+				Kind:   rapid.SampledFrom([]string{"ok", "ok", "okdrop"}).Draw(t, "recovery"),
+				PostMs: rapid.SampledFrom([]int64{0, 1}).Draw(t, "post"),
+			})
 		}
 		c.Peers = append(c.Peers, ps)
 		c.Ops = append(c.Ops, Op{Kind: "add", Peer: i})
@@ -819,6 +869,53 @@ func genBackoff(t *rapid.T) Case {
 	return c
 }
 
+// flapGrid enumerates the delivery schedules of one flapping reconnect: after k failed
+// dials a dial succeeds and the connection is gone again when host.Connect returns nil.
+//   - "okdrop": the connection drops during the dial; Connected/Disconnected are each
+//     delivered at once or held (released one soak step later), Connect returns 0 / 1 ms /
+//     3 s after the drop (with > 0 the service has handled every delivered notification
+//     before Connect returns; with 0 its goroutines race the return);
+//   - "ok" + external disconnect while Connect is still waiting (PostMs 3 s / 30 s).
+//
+// Afterwards the service keeps running for 3 soak steps: the peer must be dialled again
+// within 10 min each time (all later dials fail, or succeed and stay up).
+func flapGrid(yield func(Case) bool) {
+	tailOps := []Op{{Kind: "soak", N: 1}, {Kind: "release"}, {Kind: "release"}, {Kind: "soak", N: 2}}
+	for _, k := range []int{0, 1, 3} {
+		for _, tail := range []string{"fail", "ok"} {
+			for _, holdC := range []bool{false, true} {
+				for _, holdD := range []bool{false, true} {
+					mk := func(o Outcome, mid ...Op) Case {
+						ps := PeerSpec{Tail: tail}
+						for j := 0; j < k; j++ {
+							ps.Dials = append(ps.Dials, Outcome{Kind: "fail"})
+						}
+						ps.Dials = append(ps.Dials, o)
+						ops := []Op{{Kind: "add"}, {Kind: "start"}}
+						ops = append(ops, mid...)
+						return Case{Peers: []PeerSpec{ps}, Ops: append(ops, tailOps...)}
+					}
+					for _, delay := range []int64{0, 3000} {
+						for _, post := range []int64{0, 1, 3000} {
+							if !yield(mk(Outcome{Kind: "okdrop", HoldC: holdC, HoldD: holdD, DelayMs: delay, PostMs: post})) {
+								return
+							}
+						}
+					}
+					for _, post := range []int64{3000, 30000} {
+						// untildial polls every 2 s, the dial lasts >= 3 s: the disconnect lands
+						// while Connect is waiting after the connection was made
+						if !yield(mk(Outcome{Kind: "ok", HoldC: holdC, PostMs: post},
+							Op{Kind: "untildial"}, Op{Kind: "disc", Hold: holdD})) {
+							return
+						}
+					}
+				}
+			}
+		}
+	}
+}
+
 func sample(c Case) any {
 	if len(c.Ops) <= 40 {
 		return c
@@ -828,16 +925,31 @@ func sample(c Case) any {
 
 var spec = kit.Spec[Case]{
 	Prop: "C46", Name: "main",
-	Rule:  "peering service in a synctest bubble on a fake host: 1..3 peers with scripted dial outcomes (fail / ok / ok-then-drop-before-Connect-returns, optional dial duration), script of <=~30 AddPeer/RemovePeer/Start/Stop/external connect/disconnect/advance(<=11 min)/soak/advance-until-a-dial-is-in-flight/release, Connected/Disconnected notifications optionally held and delivered later (also after Stop); safety: no Connect starts after Stop/RemovePeer returned; progress: every disconnected, fully notified peer of a running service is dialled within 10 min and never with delay 0; non-trivial = a notification is held across or delivered after Stop/RemovePeer, Stop/RemovePeer during a dial, a connect-then-drop, or >=3 consecutive failed dials",
+	Rule:  "peering service in a synctest bubble on a fake host: 1..3 peers with scripted dial outcomes (fail / ok / ok-then-drop-before-Connect-returns, optional dial duration, optional time 1 ms..30 s that Connect keeps waiting after the connection events before it returns nil, so that the service handles the drop first), script of <=~30 AddPeer/RemovePeer/Start/Stop/external connect/disconnect/advance(<=11 min)/soak/advance-until-a-dial-is-in-flight/release, Connected/Disconnected notifications optionally held and delivered later (also after Stop); safety: no Connect starts after Stop/RemovePeer returned; progress: every disconnected, fully notified peer of a running service is dialled within 10 min and never with delay 0; non-trivial = a notification is held across or delivered after Stop/RemovePeer, Stop/RemovePeer during a dial, a connect-then-drop, Connect returning nil for a peer that is disconnected again, or >=3 consecutive failed dials",
 	Quick: 1500, Thorough: 12000,
 	Gen: gen, Run: run, Journal: true, Sample: sample,
 }
 
 var specBackoff = kit.Spec[Case]{
 	Prop: "C46", Name: "backoff",
-	Rule:  "1..3 peers whose dials all fail (optionally one success after 0..40 failures, then an external drop), service soaked for up to 108 steps of 10 min + 1 s: every step must contain a dial of every disconnected peer, no inter-dial delay may exceed 10 min or be 0, nothing may panic; non-trivial = >=3 consecutive failures (classes show >=20 and >=100)",
+	Rule:  "1..3 peers whose dials all fail (optionally one success - stable, or dropped again before Connect returns - after 0..40 failures, then an external drop), service soaked for up to 108 steps of 10 min + 1 s: every step must contain a dial of every disconnected peer, no inter-dial delay may exceed 10 min or be 0, nothing may panic; non-trivial = >=3 consecutive failures (classes show >=20 and >=100)",
 	Quick: 150, Thorough: 1200,
 	Gen: genBackoff, Run: run, Journal: true, Sample: sample,
+}
+
+var specFlap = kit.Spec[Case]{
+	Prop: "C46", Name: "flap",
+	Rule: "finite grid (192 cases) of one flapping reconnect on a running service with 1 peer: after 0/1/3 failed dials a dial succeeds and the connection is gone again when host.Connect returns nil - either dropped during the dial (Connect returns 0 / 1 ms / 3 s after the drop, dial duration 0 / 3 s) or disconnected externally while Connect still waits (3 s / 30 s) - x Connected held or not x Disconnected held or not (held ones are released 10 min later) x later dials fail / succeed; then 3 soak steps of 10 min + 1 s: the peer must be dialled again within 10 min of Connect returning (same oracles as main); non-trivial = connect-then-drop, Connect returning nil for a peer that is disconnected at that moment, or >=3 consecutive failures (in 3 cases a concurrent second dial reconnects the peer before the first Connect returns)",
+	Run:  run, Journal: true, Sample: sample,
+}
+
+func TestPropFlap(t *testing.T) {
+	if kit.Shard() != "0" {
+		t.Skip("exhaustive grid runs in shard 0 only")
+	}
+	t.Run("replay", func(t *testing.T) { curT = t; kit.Replay(t, specFlap) })
+	t.Run("findings", func(t *testing.T) { curT = t; kit.RunFindings(t, specFlap) })
+	t.Run("grid", func(t *testing.T) { curT = t; kit.Exhaustive(t, specFlap, flapGrid) })
 }
 
 func all(t *testing.T, s kit.Spec[Case]) {
